@@ -1706,7 +1706,9 @@ def integer_divide(lhs, rhs, ctx):
     """
     ts = vy_type(lhs, rhs)
     return {
-        (NUMBER_TYPE, NUMBER_TYPE): lambda: 0 if rhs == 0 else lhs // rhs,
+        (NUMBER_TYPE, NUMBER_TYPE): lambda: 0
+        if rhs == 0
+        else vyxalify(sympy.floor(sympy.sympify(lhs) / sympy.sympify(rhs))),
         (NUMBER_TYPE, str): lambda: divide(lhs, rhs, ctx=ctx)[0],
         (str, NUMBER_TYPE): lambda: divide(rhs, lhs, ctx=ctx)[0],
         (ts[0], types.FunctionType): lambda: foldl(
@@ -2233,7 +2235,12 @@ def modulo(lhs, rhs, ctx):
     """
     ts = vy_type(lhs, rhs, simple=True)
     return {
-        (NUMBER_TYPE, NUMBER_TYPE): lambda: lhs % rhs,
+        (NUMBER_TYPE, NUMBER_TYPE): lambda: lhs % rhs
+        if rhs == 0
+        else vyxalify(
+            lhs
+            - rhs * sympy.floor(sympy.sympify(lhs) / sympy.sympify(rhs))
+        ),
         (NUMBER_TYPE, str): lambda: format_string(rhs, [lhs]),
         (str, NUMBER_TYPE): lambda: format_string(lhs, [rhs]),
         (str, str): lambda: format_string(lhs, [rhs]),
